@@ -185,6 +185,13 @@ func wApplyDerive(spec *quic.QUICSpec, d *WDerive) error {
 	if len(d.Suppress) > 0 {
 		spec.SuppressTransportParameters = append([]uint64{}, d.Suppress...)
 	}
+	if d.GreaseExact {
+		// a suppression entry that is itself GREASE-shaped names exactly one ID, it is not the wildcard (that is 27)
+		if q := wQTPExt(spec); q != nil {
+			q.TransportParameters = append(q.TransportParameters, &tls.FakeQUICTransportParameter{Id: 31*9 + 27, Val: []byte{1}}, &tls.FakeQUICTransportParameter{Id: 31*10 + 27, Val: []byte{2, 2}})
+			spec.SuppressTransportParameters = append(spec.SuppressTransportParameters, 31*9+27)
+		}
+	}
 	if d.DupSuppressed != 0 {
 		// the same private-use parameter at the front, in the middle and at the end of the list, and suppressed: none of the
 		// copies may reach the wire
